@@ -19,6 +19,7 @@ ASSUMPTIONS = [
 RULE = ("cases from props/C19.py gen(): random tabulated generative models (1-4 states, 1-3 actions, 1-3 observations, "
         "1-3 outcomes per (s,a), terminal states, rewards of either sign, discount in {1/4,1/2,3/4,1}), horizons 0-6, "
         "0-40 iterations, histories of 1-4 calls advancing with simulated and never-simulated states/observations; "
+        "in about 40 % of the cases the model's discount / a reward is changed through the model AFTER the planner was built (before any call and between calls); "
         "non-trivial = the final tree has depth >= 2 or a subtree was promoted; distinct by md5 of the case line")
 
 
@@ -66,6 +67,29 @@ def gen_model(rng, iso0=False):
     return head, S, A, O
 
 
+# Model-side setter calls between planner calls (round 6).  The planners hold the model by const reference
+# and read getDiscount() / sample from it at use time, so the model may change AFTER the planner object
+# exists: "D <disc>" = setDiscount, "W <idx> <r>" = one reward of the tabulated model changes.  They are
+# written in front of an op (also in front of the first one: the planner is constructed before any op) and
+# are not counted in <nops>.  _MUT["on"] is drawn once per case (about 40 % of the cases).
+_MUT = {}
+
+
+def setters(rng, ntab):
+    if not _MUT.get("on"): return ""
+    out = ""
+    if rng.random() < 0.6:
+        out += "D %s " % rng.choice(["1/4", "1/2", "3/4", "1", "1", "1/4"])
+    if rng.random() < 0.2:
+        out += "W %d %s " % (rng.randrange(ntab), rng.choice([q(rng.randint(-6, 6), 1), q(rng.randint(-12, 12), 4)]))
+    return out
+
+
+def ntab_of(head):
+    t = head.split()
+    return int(t[1]) * int(t[2]) * int(t[4])
+
+
 def gen_horizon(rng):
     if _BD.get("h1"): return 1
     if _BD.get("h2"): return 2
@@ -104,11 +128,12 @@ def gen_mctsv(rng):
     expl = rng.choice(["0", "1/2", "1", "5", "100"])
     h = 2 if _BD.get("h2") else rng.choice([2, 3, 3, 4, 5, 6])
     cur = rng.randrange(S)
-    ops = ["F %d %d" % (cur, h)]
+    nt = ntab_of(head)
+    ops = [setters(rng, nt) + "F %d %d" % (cur, h)]
     for _ in range(rng.choice([0, 1, 1, 2])):
         h = next_h(rng, h)
         a = rng.randrange(acnt[cur]); cur = rng.randrange(S)
-        ops.append("A %d %d %d" % (a, cur, h))
+        ops.append(setters(rng, nt) + "A %d %d %d" % (a, cur, h))
     return "mctsv %s %s %d %s %d %s" % (head, " ".join(map(str, acnt)), iters, expl, len(ops), " ".join(ops))
 
 
@@ -130,19 +155,22 @@ def gen_rpomcp(rng):
         w[w.index(max(w))] += p - tot
         return " ".join(q(x, p) for x in w)
     h = gen_horizon(rng)
-    ops = ["F %s %d" % (belief(), h)]
+    nt = ntab_of(head)
+    ops = [setters(rng, nt) + "F %s %d" % (belief(), h)]
     for _ in range(rng.choice([0, 1, 1, 2, 3])):
         h = next_h(rng, h)
         if rng.random() < 0.1:
-            ops.append("F %s %d" % (belief(), h))
+            ops.append(setters(rng, nt) + "F %s %d" % (belief(), h))
         else:
-            ops.append("A %d %d %d" % (rng.randrange(A), bd_obs(rng, O), h))
+            ops.append(setters(rng, nt) + "A %d %d %d" % (rng.randrange(A), bd_obs(rng, O), h))
     return "rpomcp %d %s %d %d %s %d %d %s" % (entropy, head, bsize, iters, expl, k, len(ops), " ".join(ops))
 
 
 def gen_case(rng):
     _BD.clear()
     if rng.random() < 0.25: _BD.update(bd_pick(rng))
+    _MUT.clear()
+    if rng.random() < 0.4: _MUT["on"] = True
     r = rng.random()
     if r < 0.2:
         c = gen_mctsv(rng)
@@ -154,14 +182,15 @@ def gen_case(rng):
     expl = rng.choice(["0", "1/2", "1", "5", "100"])
     nadv = rng.choice([0, 1, 1, 2, 3])
     h = gen_horizon(rng)
+    nt = ntab_of(head)
     if rng.random() < 0.5:
-        ops = ["F %d %d" % (rng.randrange(S), h)]
+        ops = [setters(rng, nt) + "F %d %d" % (rng.randrange(S), h)]
         for _ in range(nadv):
             h = next_h(rng, h)
             if rng.random() < 0.12:
-                ops.append("F %d %d" % (rng.randrange(S), h))
+                ops.append(setters(rng, nt) + "F %d %d" % (rng.randrange(S), h))
             else:
-                ops.append("A %d %d %d" % (rng.randrange(A), rng.randrange(S), h))
+                ops.append(setters(rng, nt) + "A %d %d %d" % (rng.randrange(A), rng.randrange(S), h))
         return "mcts %s %d %s %d %s" % (head, iters, expl, len(ops), " ".join(ops))
     else:
         bsize = bd_bsize(rng, rng.choice([1, 2, 3, 5, 8]))
@@ -174,13 +203,13 @@ def gen_case(rng):
             while p < tot: p *= 2
             w[w.index(max(w))] += p - tot
             return " ".join(q(x, p) for x in w)
-        ops = ["F %s %d" % (belief(), h)]
+        ops = [setters(rng, nt) + "F %s %d" % (belief(), h)]
         for _ in range(nadv):
             h = next_h(rng, h)
             if rng.random() < 0.12:
-                ops.append("F %s %d" % (belief(), h))
+                ops.append(setters(rng, nt) + "F %s %d" % (belief(), h))
             else:
-                ops.append("A %d %d %d" % (rng.randrange(A), bd_obs(rng, O), h))
+                ops.append(setters(rng, nt) + "A %d %d %d" % (rng.randrange(A), bd_obs(rng, O), h))
         return "pomcp %s %d %d %s %d %s" % (head, bsize, iters, expl, len(ops), " ".join(ops))
 
 
